@@ -621,3 +621,16 @@ def run(index, rep, tier):
                         rep.check(infinal, "R10.17", f.qualname, "saved mutability restored on the normal path only", fn_where(f, st), "%s: `%s` sits in a finally clause" % (f.name, norm_stmt(st)[:50]),
                                   "%s overwrites `%s.is_mutable` for the duration of its work and restores it with `%s` outside any `finally`: when the work in between raises (an unknown label in a namespace that may not grow, a cell that is not a number) the flag keeps the temporary value - a namespace handed over mutable stays locked, one handed over locked stays open and goes on gaining members" % (f.qualname, saves[st.value.id], norm_stmt(st)[:50]))
         rep.floor("R10.17", "save / overwrite / restore sequences on a namespace's is_mutable", 1, n17)
+
+    # ---- R10.18 a bit is turned back into a taxon through the accession map
+    with rep.section("R10.18"):
+        rep.rule("R10.18", "a bit is turned back into a taxon through the accession map: a method of TaxonNamespace that takes a bitmask reads members by `_accession_index_taxon_map[...]`, never by position in the member list (`self._taxa[...]`, `self[...]`) - after a removal, a sort or a reversal the position of a member is no longer its bit, so the decoding would name other taxa than the encoding set")
+        n18 = 0
+        for mname, mf in sorted(index.klass(TNS).methods.items()):
+            if not any("bitmask" in p_ for p_ in mf.params):
+                continue
+            n18 += 1
+            bypos = [x for x in ast.walk(mf.node) if isinstance(x, ast.Subscript) and isinstance(x.ctx, ast.Load) and norm(x.value) in ("self._taxa", "self") and not isinstance(x.slice, ast.Slice)]
+            rep.check(not bypos, "R10.18", mf.qualname, "bit decoded by list position", fn_where(mf, bypos[0] if bypos else None), "%s decodes bits through the accession map" % mname,
+                      "TaxonNamespace.%s reads `%s`: the index of a bit is the member's ACCESSION index, which equals its list position only while nothing was removed, sorted or reversed - on a sorted namespace `leafset 0b11` is decoded as the first two members of the list instead of the two taxa that carry bits 0 and 1" % (mname, norm(bypos[0]) if bypos else ""))
+        rep.floor("R10.18", "TaxonNamespace methods taking a bitmask", 1, n18)
